@@ -5,7 +5,10 @@
               k_file_ok of the proved file class (Proofs/C01_EqFile.v file_class_ok; Proofs/C01_EqFileCover.v:
               k_file_ok R = true -> file_class_ok R = true):  "file:" R with no base or a base whose scheme
               is not file;  "file:" R against a file base when R starts with two '/' '\' ;  a scheme-less
-              reference R that starts with two '/' '\' against a file base.  `known_c01_v1` is the predicate
+              reference R that starts with two '/' '\' against a file base;  R (the reference, or what
+              follows "file:") with exactly ONE leading '/' '\' against a file base with an authority whose first
+              path segment is not a normalized drive letter, no drive letter behind the separator (k_one_keep;
+              `known_c01_v3` is the predicate without this arm).  `known_c01_v1` is the predicate
               before any narrowing (class 1 = the whole file scheme), `known_c01_v2` the one without the two
               file-base arms;
      class 2  a ".." (in any spelling) meets a drive-letter-shaped last segment in the path the Standard's
@@ -275,10 +278,12 @@ Fixpoint kf_path (t : list N) (P : list (list N)) (B : list N) : list (list N) :
 Definition kf_last_wdl (P : list (list N)) : bool := match rev P with s :: _ => k_wdl s | [] => false end.
 Definition kf_pref (B : list N) : bool :=
   match B with a :: b :: _ => is_alpha a && ((b =? 58) || (b =? 124)) | _ => false end.
-(* no ".." on a drive-letter-shaped last segment (F-C01-5/9); no drive letter as the first segment of a URL
-   with a host (F-C01-1) *)
+(* the only segment is a normalized drive letter: ".." pops it on neither side *)
+Definition kf_sole (P : list (list N)) : bool := match P with [p0] => is_normalized_wdl p0 | _ => false end.
+(* no ".." on a drive-letter-shaped last segment (F-C01-5/9) - unless it is the sole segment and a normalized drive
+   letter -; no drive letter as the first segment of a URL with a host (F-C01-1) *)
 Definition kf_fin_ok (hh : bool) (P : list (list N)) (B : list N) : bool :=
-  negb (is_double_dot B && kf_last_wdl P) && negb (hh && k_nil P && is_wdl B).
+  negb (is_double_dot B && kf_last_wdl P && negb (kf_sole P)) && negb (hh && k_nil P && is_wdl B).
 (* ... and the first segment does not go on after a drive-letter prefix (F-C01-7) *)
 Fixpoint kf_path_ok (hh : bool) (t : list N) (P : list (list N)) (B : list N) : bool :=
   match t with
@@ -340,7 +345,7 @@ Definition known_c01_v2 (base : option url) (input : list N) : N :=
 (* ... and the two arms in which neither side reads a FILE base (Proofs/C01_EqFileTwo.v, C01_EqFileRel2.v):
    "file:" R against a file base when R starts with two '/' '\' ; a scheme-less reference that starts with two
    '/' '\' against a file base (that is not cannot-be-a-base) - R, resp. the reference, inside k_file_ok *)
-Definition k_file_narrow (base : option url) (input : list N) : bool :=
+Definition k_file_narrow_v3 (base : option url) (input : list N) : bool :=
   let t := cleaned input in
   match leading_scheme t with
   | Some s => list_eqb s s_file
@@ -350,6 +355,40 @@ Definition k_file_narrow (base : option url) (input : list N) : bool :=
               && k_file_ok (after_colon t)
   | None => match base with
             | Some b => list_eqb (b_scheme b) s_file && negb (k_cbb b) && k_two_sl t && k_file_ok t
+            | None => false
+            end
+  end.
+
+(* the predicate of task c01file4 (Proofs/C01_EqFileCover2.v is about it) *)
+Definition known_c01_v3 (base : option url) (input : list N) : N :=
+  let k := known_c01_v1 base input in
+  if (k =? 1) && k_file_narrow_v3 base input then 0 else k.
+
+(* ... and ONE leading '/' '\' against a file base, the host of the base kept (Proofs/C01_EqFileOne.v arm (a),
+   Proofs/C01_EqFileCover3.v; task c01file5): R = the text from the separator on (the reference, or what follows
+   "file:"), inside k_file_ok; behind the separator neither a separator nor a Windows drive letter; the base has an
+   authority and the first segment of its path is not a normalized Windows drive letter *)
+Definition k_one_keep (b : url) (R : list N) : bool :=
+  match R with
+  | c1 :: R1 =>
+      k_sl c1 && match R1 with c2 :: _ => negb (k_sl c2) | [] => true end
+      && negb (starts_with_wdl_segment R1)
+      && starts_with s_css (nskipn (scheme_end b) (ser b))
+      && match base_first_segment b with Some s => negb (is_normalized_wdl s) | None => false end
+  | [] => false
+  end.
+
+Definition k_file_narrow (base : option url) (input : list N) : bool :=
+  let t := cleaned input in
+  match leading_scheme t with
+  | Some s => list_eqb s s_file
+              && (match base with
+                  | Some b => negb (list_eqb (b_scheme b) s_file) || k_two_sl (after_colon t)
+                              || (negb (k_cbb b) && k_one_keep b (after_colon t))
+                  | None => true end)
+              && k_file_ok (after_colon t)
+  | None => match base with
+            | Some b => list_eqb (b_scheme b) s_file && negb (k_cbb b) && (k_two_sl t || k_one_keep b t) && k_file_ok t
             | None => false
             end
   end.
